@@ -1051,3 +1051,50 @@ def _anc(node: ast.AST, stop: ast.AST):
     while p_ is not None and p_ is not stop:
         yield p_
         p_ = getattr(p_, "_parent", None)
+
+
+# which way a constructor's parameter maps combine the values that arrive at one target position (confirmed by reading):
+# a union-type constructor sees the *same* statistic arrive from several positions (assign, equal values merged); a
+# product sees the parts of one statistic (sum); a quotient hands one value to several positions (assign).
+EXPECTED_MAP_KIND = {"DisjointUnion": "assign", "Complement": "assign", "Quotient": "assign", "CartesianProduct": "sum"}
+
+
+def v15_map_kind_per_constructor(ctx) -> None:
+    """Every `build_param_map` a constructor calls resolves -- through the class it is called on,
+    `self` meaning the class of the method and its bases -- to the param_map of the kind that
+    constructor needs.  Static methods bound by class name do not dispatch, and `self.` on a class
+    that does not define the helper finds the base's summing version."""
+    P = ctx.P
+    n = 0
+    for cname, want in EXPECTED_MAP_KIND.items():
+        cls = P.need_class(cname)
+        for mm in cls.methods.values():
+            for c in walk_local(mm.node):
+                if not (isinstance(c, ast.Call) and isinstance(c.func, ast.Attribute) and c.func.attr == "build_param_map" and isinstance(c.func.value, ast.Name)):
+                    continue
+                recv = c.func.value.id
+                start = cls if recv in ("self", "cls") else P.classes.get(recv)
+                if start is None:
+                    raise AnalysisError(f"V15: cannot resolve `{norm(c.func)}` in {mm.qualname}")
+                b = P.find_method(start, "build_param_map")
+                if b is None:
+                    raise AnalysisError(f"V15: {start.name} has no build_param_map")
+                bound = [a.value.id for a in ast.walk(b.node) if isinstance(a, ast.Attribute) and a.attr == "param_map" and isinstance(a.value, ast.Name)]
+                pm = None
+                for r_ in bound:
+                    k = b.cls if r_ in ("self", "cls") else P.classes.get(r_)
+                    if k is not None:
+                        pm = P.find_method(k, "param_map")
+                if pm is None:
+                    raise AnalysisError(f"V15: cannot tell which param_map {b.qualname} binds")
+                acc = any(isinstance(x, ast.AugAssign) and isinstance(x.target, ast.Subscript) for x in walk_local(pm.node))
+                kind = "sum" if acc else "assign"
+                n += 1
+                if kind == want:
+                    ctx.ok("V15", f"{mm.qualname}: `{norm(c.func)}` resolves to {pm.qualname} ({kind}), the kind a {cname} needs")
+                else:
+                    ctx.violation("V15", c, f"{mm.qualname}: `{norm(c.func)}` resolves to {b.qualname} -> {pm.qualname}, which {'adds the values up' if acc else 'assigns'}; a {cname} "
+                                  f"needs the map that {'assigns (the same statistic arrives from several positions)' if want == 'assign' else 'sums the parts'}: where several "
+                                  "parent statistics meet in one child statistic the value comes out multiplied")
+    if n < 4:
+        ctx.floor("V15", 99)
